@@ -273,4 +273,94 @@ def rbRun {X : Type} (tbl : List RbAssign) (f : X → Rat) : RbState X → List 
   | st, [] => st
   | st, c :: rest => rbRun tbl f (rbStep tbl f st c.1 c.2) rest
 
+/-! ## NumPy / CasADi-level primitives of the kernels re-translated from the source
+
+`harness/translate_c06.py` (`gen_user_rows`) walks the objective assembly, the point-constraint
+broadcasting loop and the path-constraint bound block of `transcribe()` and emits
+`Gen/UserRows.lean` in terms of the primitives below; the generated theorems state that the
+emitted functions are the model functions above (`fMember`, `objectiveCode`, `pointBound`,
+`pointRows`, `pathBlock`, `pathRows`). -/
+
+/-- `ca.vec(M[lo : hi, c0 : c1])` for a matrix given by its columns -/
+def vecRange (lo hi c0 c1 : Nat) (cols : List (List Rat)) : List Rat :=
+  ((cols.drop c0).take (c1 - c0)).flatMap (fun col => (col.drop lo).take (hi - lo))
+
+/-- the value of `objective(m)`: a column vector with one entry; an empty one reads as 0
+    (`if f_member.size1() == 0: f_member = 0`) -/
+def objVal : List Rat → Rat
+  | [] => 0
+  | x :: _ => x
+
+/-- a NumPy value in the bound code: scalar, 1-D array, 2-D array (`r x c`, by rows) -/
+inductive NArr where
+  | sc (v : XVal)
+  | d1 (vs : List XVal)
+  | d2 (r c : Nat) (rows : List (List XVal))
+deriving Repr
+
+/-- a bound handed over by the user as a NumPy value (Timeseries have no such reading) -/
+def UBound.arr : UBound → Option NArr
+  | .scalar v => some (.sc v)
+  | .vec vs => some (.d1 vs)
+  | _ => none
+
+/-- `np.full(s, b)` with a scalar or one-element fill value -/
+def npFull (s : Nat) : Option NArr → Option (List XVal)
+  | some (.sc v) => some (List.replicate s v)
+  | some (.d1 vs) => if vs.length = 1 then some (List.replicate s (vs.getD 0 .nan)) else none
+  | _ => none
+
+/-- the entries a list element contributes to `lbg.extend(...)`: a scalar one entry, an array
+    its entries -/
+def npEntries : Option NArr → Option (List XVal)
+  | some (.sc v) => some [v]
+  | some (.d1 vs) => some vs
+  | _ => none
+
+/-- `np.broadcast_to(b, (r, c))` -/
+def npBroadcastTo (r c : Nat) : Option NArr → Option NArr
+  | some (.sc v) => some (.d2 r c (List.replicate r (List.replicate c v)))
+  | some (.d1 vs) =>
+    if vs.length = c then some (.d2 r c (List.replicate r vs))
+    else if vs.length = 1 then some (.d2 r c (List.replicate r (List.replicate c (vs.getD 0 .nan))))
+    else none
+  | _ => none
+
+/-- `a.transpose()`: a no-op below two dimensions -/
+def npTranspose : Option NArr → Option NArr
+  | some (.d2 r c rows) =>
+    some (.d2 c r ((List.range c).map (fun j => rows.map (fun row => row.getD j .nan))))
+  | a => a
+
+/-- `self.interpolate(collocation_times, b.times, b.values, fill, fill).transpose()` of a
+    Timeseries bound: 1-D values give the `n` interpolated values, 2-D values one row of `n`
+    values per component (the interior of `interpolate` is C19's; its 2-D branch is read as
+    column-wise 1-D interpolation) -/
+def npInterpT (times : List Rat) (fill : XVal) : UBound → Option NArr
+  | .ts1 ts vals => (interpArray 0 (ts.zip vals) (some fill) (some fill) times).map .d1
+  | .ts2 ts cols =>
+    (interpColumns 0 (cols.map (fun c => ts.zip c)) (some fill) (some fill) times).map
+      (fun rows => .d2 rows.length times.length rows)
+  | _ => none
+
+/-- `A[j : j + s, :] = b` for a block of `s` rows and `n` columns (NumPy assignment broadcast);
+    `none`: NumPy refuses -/
+def npAssignRows (s n : Nat) : Option NArr → Option (List (List XVal))
+  | some (.sc v) => some (List.replicate s (List.replicate n v))
+  | some (.d1 vs) =>
+    if vs.length = n then some (List.replicate s vs)
+    else if vs.length = 1 then some (List.replicate s (List.replicate n (vs.getD 0 .nan)))
+    else none
+  | some (.d2 r c rows) =>
+    if c ≠ n then none
+    else if r = s then some rows
+    else if r = 1 then some (List.replicate s (rows.getD 0 []))
+    else none
+  | none => none
+
+/-- blocks written one below the other (`j = 0; for …: A[j : j + s, :] = …; j += s`), then
+    `A.transpose().ravel()` -/
+def stackRavel (n : Nat) (blocks : Option (List (List (List XVal)))) : Option (List XVal) :=
+  blocks.map (fun bl => ravelT n bl.flatten)
+
 end RtcVerif.C06
